@@ -22,7 +22,7 @@ RULE = ("cases: DAG codes -> dag_to_cpdag; PDAG codes with acyclic directed part
         ' Also: relabelled embeddings (random / hash-hostile) of the small graphs, named shapes, 1,600 sparse DAGs on 10-14 nodes, array presentations, minute weights, repeat after the caller overwrote the result.')
 ASSUMPTIONS = ["brute-force oracle correct (self-check counts)", "PDAGs with cyclic directed part are out of the quantifier (counted only)"]
 EXHAUSTIVE = {"quick": True, "thorough": True}
-SOFT_LIMIT = {"quick": 240, "thorough": 1700}
+SOFT_LIMIT = {"quick": 1200, "thorough": 5400}      # generous wall-clock watchdogs (a loaded machine must not cut a workload short); normal run times are in the evidence
 REQUIRED_FUNCS = ["sempler/utils.py:dag_to_cpdag", "sempler/utils.py:pdag_to_cpdag"]
 REQUIRED_COUNTERS = {"quick": {"cpdag:compelled-outside-vstructure": 100, "cpdag:has-reversible": 1000, "pdag:no-extension": 50,
                                },
